@@ -1,6 +1,8 @@
 // Package tls replaces crypto/tls in rewritten code: the configuration types
 // are the real ones, Dial and Listen use the simulated network (the TLS
-// handshake itself is outside the simulation).
+// handshake itself is outside the simulation). Dial returns a concrete
+// pointer type, like the real package: a failed dial yields a nil *Conn, and
+// code that stores it in a net.Conn variable gets a non-nil interface.
 package tls
 
 import (
@@ -12,8 +14,13 @@ import (
 type (
 	Config      = realtls.Config
 	Certificate = realtls.Certificate
-	Conn        = realtls.Conn
 )
+
+// Conn is the client side of a simulated TLS connection.
+type Conn struct{ *simnet.SimConn }
+
+// Sim gives the dRPC stub access to the simulated connection underneath.
+func (c *Conn) Sim() *simnet.SimConn { return c.SimConn }
 
 const (
 	VersionTLS12 = realtls.VersionTLS12
@@ -27,5 +34,12 @@ func LoadX509KeyPair(certFile, keyFile string) (Certificate, error) {
 	return realtls.LoadX509KeyPair(certFile, keyFile)
 }
 
-func Dial(network, addr string, _ *Config) (simnet.Conn, error)       { return simnet.Dial(network, addr) }
+func Dial(network, addr string, _ *Config) (*Conn, error) {
+	c, err := simnet.DialSim(addr)
+	if err != nil {
+		return nil, err
+	}
+	return &Conn{c}, nil
+}
+
 func Listen(network, addr string, _ *Config) (simnet.Listener, error) { return simnet.Listen(network, addr) }
